@@ -50,6 +50,8 @@ def cases(rng, tier):
     n = 250 if tier == "quick" else 4000
     for i in range(n):
         yield rvgen.sim_case(rng, "single", opts={"wide": i % 3 == 0}, trace=25, run=300, dprob=0.0, iprob=0.0)
+    for i in range(n // 2):
+        yield rvgen.chain_case(rng, "single", trace=16, run=100)
 
 
 def nontrivial(c):
